@@ -4,6 +4,7 @@ import StepModel.P21.ReaderLemmas14
 import StepModel.P21.ReaderLemmas17
 import StepModel.P21.ReaderLemmas18
 import StepModel.P21.ReaderLemmas19
+import StepModel.P21.ReaderLemmas24
 import StepModel.Generated.P21RWGen
 /-! # C01 — exchange files survive read-then-write: property theorems
 
@@ -1479,6 +1480,175 @@ theorem C01_read_file_mixed_partial {F} (ops : FloatOps F) (lex : LexCfg) (cfg :
   · rw [hc]; simp [xs]
   · rw [hv]; simp [xs]
 
+/-! ### … and records without parameters -/
+
+/-- pass 1 on a record of `AnyRecCovered` -/
+theorem anyRec_item1 {F} (ops : FloatOps F) (lex : LexCfg) (cfg : RWCfg) (d : Dict)
+    (hskip : cfg.skipInstanceSkipsComments = true) (lk : Lookup) (r : AnyRec F)
+    (h : AnyRecCovered { ops := ops, lex := lex, cfg := cfg, dict := d, lookup := lk } r) : Item1OK cfg d (r.item d) := by
+  cases r with
+  | simple rg =>
+    obtain ⟨hl, hg, e, he, habs, _, hcov⟩ := h
+    have he' : d.entity? rg.1.name = some e := he
+    refine ⟨hg, rfl, ?_⟩
+    intro m hnone l c k hc h47 h92
+    obtain ⟨l', h⟩ := createInstance_rec cfg hskip d m rg.1 hl (fun q hq => covered_scan _ q (hcov q hq)) hnone e he' habs
+      l rg.2 hg c k hc h47 h92
+    refine ⟨l', ?_⟩
+    show createInstance cfg d m (G l (rg.1.text [] ++ (rg.2 ++ c :: k)) false) = _
+    rw [rec_text_append, h]
+    simp [AnyRec.item, mkInst, he']
+  | complex r g =>
+    obtain ⟨hl, hg, hlegal, _, _⟩ := h
+    refine ⟨hg, rfl, ?_⟩
+    intro m hnone l c k hc h47 h92
+    obtain ⟨l', h⟩ := createInstance_crec cfg hskip d m r hl hnone hlegal l g hg c k hc h47 h92
+    refine ⟨l', ?_⟩
+    show createInstance cfg d m (G l (r.text [] ++ (g ++ c :: k)) false) = _
+    rw [crec_text_append]
+    exact h
+/-- pass 2 on a record of `AnyRecCovered`, whatever the `skipws` flag -/
+theorem anyRec_item2 {F} (ops : FloatOps F) (lex : LexCfg) (cfg : RWCfg) (d : Dict) (strict : Bool)
+    (hskip : cfg.skipInstanceSkipsComments = true) (hcri : lex.criSkipsComments = true) (hagg : cfg.aggrSkipsComments = true)
+    (hmc : cfg.missingCheckEverySecond = false) (hrep : cfg.complexReportsError = true) (lk : Lookup) (r : AnyRec F)
+    (h : AnyRecCovered { ops := ops, lex := lex, cfg := cfg, dict := d, lookup := lk } r) :
+    Item2OK ops lex cfg d strict lk (r.item d) := by
+  cases r with
+  | simple rg =>
+    obtain ⟨hl, hg, e, he, habs, hal, hcov⟩ := h
+    have hent' : d.entity? rg.1.name = some e := he
+    refine ⟨hg, rfl, rfl, by simp [keyOf, finInst, mkInst, AnyRec.item], ?_⟩
+    intro st l rest sk hfind hlk hs
+    have hs' : st.s = G l (rg.1.text rest) sk := by rw [← rec_text_append]; exact hs
+    have hrd : ∀ L, ∃ sk1, instSTEPread { ops := ops, lex := lex, cfg := cfg, dict := d, lookup := Mgr.lookup d st.mgr } strict
+        e.attrs (G L (40 :: (renderParams rg.1.ps ++ rg.1.t4 rest)) sk) =
+          .ok ⟨.null, rg.1.ps.map (·.v), G ((40 :: renderParams rg.1.ps).reverse ++ L) (rg.1.t4 rest) sk1, .null⟩ := by
+      intro L
+      obtain ⟨sk2, _, h⟩ := instSTEPread_aligned { ops := ops, lex := lex, cfg := cfg, dict := d, lookup := Mgr.lookup d st.mgr }
+        strict hmc e.attrs rg.1.ps hal hl.pne
+        (fun q hq => covered_rd _ strict hcri hagg q (by rw [hlk]; exact hcov q hq))
+        (fun q hq => covered_head_ne41 _ q (hcov q hq)) L sk (rg.1.t4 rest)
+      exact ⟨sk2, h⟩
+    obtain ⟨l', sk', h⟩ := readInstance_semi_anyflag ops lex cfg d strict st rg.1 hl l rest sk hs' (mkInst d (rg.1, rg.2)) hfind rfl rfl
+      { name := rg.1.name, vals := match d.entity? rg.1.name with | some e => defaults e.attrs | none => [] } rfl e hent'
+      .null (rg.1.ps.map (·.v)) .null hrd (by
+        have : decide (Sev.null.toInt ≤ Sev.warning.toInt) = false := by decide
+        rw [this, Bool.and_false])
+    refine ⟨l', sk', ?_⟩
+    rw [h]
+    simp [finInst, mkInst, stateOf, AnyRec.item]
+  | complex r g =>
+    obtain ⟨hl, hg, hlegal, hknown, hcov⟩ := h
+    refine ⟨hg, rfl, rfl, ?_, ?_⟩
+    · show keyOf (finCInst d r) = keyOf (mkCInst d r)
+      simp only [keyOf, finCInst, foldl_setPart_names]
+    · intro st l rest sk hfind hlk hs
+      have hs' : st.s = G l (r.text rest) sk := by rw [← crec_text_append]; exact hs
+      exact (C01_complex_record_both_passes_partial ops lex cfg d strict hskip hcri hagg hrep r hl hlegal hknown).2 st hfind
+        (fun c hc => by rw [hlk]; exact hcov c hc) l rest sk hs'
+/-- a record of a data section: one of `AnyRec`, or an internally mapped record without parameters `#id = NAME ( ) ;`
+    (any layout between the parentheses) -/
+inductive AnyRecE (F : Type) where
+  | base (r : AnyRec F)
+  | empty (r : BRec) (g : List Byte)
+
+def AnyRecE.item {F} (d : Dict) : AnyRecE F → Item F
+  | .base r => r.item d
+  | .empty r g =>
+    { body := r.text [], g := g, id := r.id,
+      mkI := { id := r.id, parts := [{ name := r.name,
+                                       vals := match d.entity? r.name with | some e => defaults e.attrs | none => [] }] },
+      out := { id := r.id, parts := [{ name := r.name, vals := [] }], state := .complete }, sev := .null }
+
+def AnyRecECovered {F} (env : Env F) : AnyRecE F → Prop
+  | .base r => AnyRecCovered env r
+  | .empty r g => r.Lex ∧ Seps g ∧ (∃ e, env.dict.entity? r.name = some e ∧ e.abstract = false ∧ e.attrs = []) ∧
+      ∃ inner, r.body = inner ++ [41] ∧ Seps inner
+
+theorem brec_text_append (r : BRec) (rest : List Byte) : r.text [] ++ rest = r.text rest := by
+  simp [BRec.text, BRec.t1, BRec.t2, BRec.t3, BRec.t4, List.append_assoc]
+
+/-- **read (render p ℓ) = p at file level, every record shape proved so far** (`_partial`): `C01_read_file_mixed_partial`
+    with records of entities without attributes, `#id = NAME ( ) ;` with any layout between the parentheses, among the
+    internally mapped (redeclared attributes allowed) and externally mapped records, in any order: one instance per
+    record - an instance without values for a record without parameters -, severity NULL, exit status 0, every instance
+    counted valid.  The record-level facts for such records come from the lemmas over `BRec` (ReaderLemmas24: an
+    internally mapped record with *any* text between its parentheses that `SkipInstance` gets over and `STEPread` reads). -/
+theorem C01_read_file_all_shapes_partial {F} (ops : FloatOps F) (lex : LexCfg) (cfg : RWCfg) (d : Dict) (strict : Bool)
+    (hskip : cfg.skipInstanceSkipsComments = true) (hcri : lex.criSkipsComments = true) (hagg : cfg.aggrSkipsComments = true)
+    (hmc : cfg.missingCheckEverySecond = false) (hrep : cfg.complexReportsError = true)
+    (rs : List (AnyRecE F)) (g0 sp gE after : List Byte) (hg0 : Seps g0) (hsp : sp.all isSpace = true) (hgE : Seps gE)
+    (hnd : (rs.map (fun r => (r.item d).id)).Nodup)
+    (hrec : ∀ r ∈ rs, AnyRecECovered { ops := ops, lex := lex, cfg := cfg, dict := d,
+                                        lookup := Mgr.lookup d ({ insts := rs.map (fun r => (r.item d).mkI) } : Mgr F) } r) :
+    ∃ res, readDataSection ops lex cfg d strict false
+        (g0 ++ renderItems (rs.map (AnyRecE.item d)) (endsec sp (gE ++ (endIso ++ 59 :: after)))) = .ok res ∧
+      res.mgr.insts = rs.map (fun r => (r.item d).out) ∧ res.sev = .null ∧ exitStatus res.sev = 0 ∧
+      res.created = rs.length ∧ res.notCreated = 0 ∧ res.valid = rs.length ∧ res.invalid = 0 := by
+  let xs : List (Item F) := rs.map (AnyRecE.item d)
+  have hmk : xs.map (·.mkI) = rs.map (fun r => (r.item d).mkI) := by simp [xs, List.map_map, Function.comp_def]
+  obtain ⟨res, hr, hm, hsev, hc, hnc, hv, hinv, _⟩ :=
+    readDataSection_items ops lex cfg hskip d strict sp _ hsp (tailOK_endIso gE hgE after) xs g0 hg0
+      (by
+        intro x hx
+        obtain ⟨r, hrm, rfl⟩ := List.mem_map.mp hx
+        cases r with
+        | base r => exact anyRec_item1 ops lex cfg d hskip _ r (hrec _ hrm)
+        | empty r g =>
+          obtain ⟨hl, hg, ⟨e, he, habs, _⟩, inner, hbody, hin⟩ := hrec _ hrm
+          have he' : d.entity? r.name = some e := he
+          refine ⟨hg, rfl, ?_⟩
+          intro m hnone l c k hc h47 h92
+          have hpass : Passes r.body := by
+            rw [hbody]; exact Passes.append (Passes.seps hin) (Passes.plain 41 (by decide))
+          obtain ⟨l', h⟩ := createInstance_brec cfg hskip d m r hl hpass hnone e he' habs l g hg c k hc h47 h92
+          refine ⟨l', ?_⟩
+          show createInstance cfg d m (G l (r.text [] ++ (g ++ c :: k)) false) = _
+          rw [brec_text_append, h]
+          simp [AnyRecE.item, he'])
+      (by simpa [xs, List.map_map, Function.comp_def] using hnd)
+      (by
+        intro x hx
+        obtain ⟨r, hrm, rfl⟩ := List.mem_map.mp hx
+        rw [hmk]
+        cases r with
+        | base r => exact anyRec_item2 ops lex cfg d strict hskip hcri hagg hmc hrep _ r (hrec _ hrm)
+        | empty r g =>
+          obtain ⟨hl, hg, ⟨e, he, habs, hattrs⟩, inner, hbody, hin⟩ := hrec _ hrm
+          have he' : d.entity? r.name = some e := he
+          refine ⟨hg, rfl, rfl, rfl, ?_⟩
+          intro st l rest sk hfind hlk hs
+          have hs' : st.s = G l (r.text rest) sk := by rw [← brec_text_append]; exact hs
+          obtain ⟨l', sk', h⟩ := readInstance_brec ops lex cfg d strict st r hl l rest sk hs' _ hfind rfl rfl
+            { name := r.name, vals := match d.entity? r.name with | some e => defaults e.attrs | none => [] } rfl e he'
+            .null [] .null
+            (by
+              intro L
+              refine ⟨sk, ?_⟩
+              rw [hattrs, hbody]
+              have := C01_read_empty_record { ops := ops, lex := lex, cfg := cfg, dict := d, lookup := Mgr.lookup d st.mgr }
+                strict inner hin L (r.t4 rest) sk
+              simpa using this)
+            (by
+              have : decide (Sev.null.toInt ≤ Sev.warning.toInt) = false := by decide
+              rw [this, Bool.and_false])
+          refine ⟨l', sk', ?_⟩
+          rw [h]
+          simp [AnyRecE.item, stateOf])
+  have hall : errAfterI .null xs = .null :=
+    errAfterI_null xs (by
+      intro y hy
+      obtain ⟨r, _, rfl⟩ := List.mem_map.mp hy
+      cases r with
+      | base r => cases r <;> rfl
+      | empty r g => rfl)
+  refine ⟨res, hr, ?_, ?_, ?_, ?_, hnc, ?_, hinv⟩
+  · rw [hm]; simp [xs, List.map_map, Function.comp_def]
+  · rw [hsev, hall]
+  · rw [hsev, hall]; rfl
+  · rw [hc]; simp [xs]
+  · rw [hv]; simp [xs]
+
 /-! ### the two halves composed, and their hypotheses on a concrete file -/
 
 /-- **the token the writer emits for a stored value denotes that value** (`storable_covered`, exported): for every stored
@@ -1693,6 +1863,41 @@ theorem C01_read_file_mixed_witness :
   obtain ⟨res, h, hi, hs, _, hc, _, hv, _⟩ := C01_read_file_mixed_partial dblOps Generated.rwLexCfg Generated.rwCfg mDict false
     (by decide) (by decide) (by decide) (by decide) (by decide) mRecs [10] [] [10] [10]
     (Seps.blanks _ (by decide)) (by decide) (Seps.blanks _ (by decide)) hnd hrec
+  exact ⟨res, h, hi, hs, hc, hv⟩
+
+/-! #### … and of the theorem over all record shapes: `#1=E( );` `#2=A(5);` (an entity without attributes) -/
+def eDict : Dict :=
+  { entities := [{ name := "A", attrs := [wAttrI], ancestors := ["A"] }, { name := "E", attrs := [], ancestors := ["E"] }],
+    selects := [], complexSets := [] }
+def eRec : BRec := { ds := [49], s1 := [], s2 := [], n0 := 69, ns := [], s3 := [], body := [32, 41], s4 := [] }
+def eRecA : Rec Nat × List Byte :=
+  ({ ds := [50], s1 := [], s2 := [], n0 := 65, ns := [], s3 := [],
+     ps := [{ a := wAttrI, v := .one (.atom (.int (denoteInteger [53]))), tok := [53], before := [], after := [] }], s4 := [] }, [10])
+def eFile : List (AnyRecE Nat) := [.empty eRec [10], .base (.simple eRecA)]
+
+/-- `#1=E( );⏎#2=A(5);⏎` - a record of an entity without attributes before an ordinary one - satisfies the hypotheses of
+    `C01_read_file_all_shapes_partial`, and the theorem applied to it: two instances, the first without values -/
+theorem C01_read_file_all_shapes_witness :
+    ∃ res, readDataSection dblOps Generated.rwLexCfg Generated.rwCfg eDict false false
+        ([10] ++ renderItems (eFile.map (AnyRecE.item eDict)) (endsec [] ([10] ++ (endIso ++ 59 :: [10])))) = .ok res ∧
+      res.mgr.insts = eFile.map (fun r => (r.item eDict).out) ∧ res.sev = .null ∧ res.created = 2 ∧ res.valid = 2 := by
+  have sepsNil : Seps ([] : List Byte) := Seps.blanks [] (by decide)
+  have sepsNl : Seps ([10] : List Byte) := Seps.blanks [10] (by decide)
+  obtain ⟨res, h, hi, hs, _, hc, _, hv, _⟩ := C01_read_file_all_shapes_partial dblOps Generated.rwLexCfg Generated.rwCfg eDict false
+    (by decide) (by decide) (by decide) (by decide) (by decide) eFile [10] [] [10] [10] sepsNl (by decide) sepsNl (by decide)
+    (by
+      intro r hr
+      simp only [eFile, List.mem_cons, List.not_mem_nil, or_false] at hr
+      rcases hr with rfl | rfl
+      · exact ⟨⟨by decide, by decide, by decide, sepsNil, sepsNil, sepsNil, sepsNil, by decide, by decide⟩, sepsNl,
+          ⟨{ name := "E", attrs := [], ancestors := ["E"] }, by decide, rfl, rfl⟩, [32], rfl, Seps.blanks [32] (by decide)⟩
+      · refine ⟨⟨by decide, by decide, by decide, sepsNil, sepsNil, sepsNil, sepsNil, by decide, by decide, by decide⟩, sepsNl,
+          { name := "A", attrs := [wAttrI], ancestors := ["A"] }, by decide, rfl,
+          AlignedA.keep wAttrI _ _ rfl AlignedA.nil, ?_⟩
+        intro q hq
+        simp only [eRecA, List.mem_cons, List.not_mem_nil, or_false] at hq
+        subst hq
+        exact Covered.integer wAttrI rfl rfl rfl [53] (by decide) (by decide) (by decide) [] [] sepsNil sepsNil)
   exact ⟨res, h, hi, hs, hc, hv⟩
 
 def exDict : Dict :=
